@@ -61,12 +61,14 @@ Definition can_sign (k : akey) (a : assertion) : bool :=
   | cs => existsb (constraint_ok (a_headers a)) cs
   end.
 
-(* Database.findAccountKey: trusted backstore first, then the stored ones; the first hit by key id decides *)
+(* Database.findAccountKey: the backstores are consulted in order - trusted, predefined, the database's own backstore,
+   then (for a WithStackedBackstore database) the backstores it is stacked on; a backstore holds at most one revision
+   of an account-key (primary key = key id). The FIRST layer that holds the key id decides; later layers are not read. *)
 Definition has_id (kid : bytes) (k : akey) : bool := beq (k_id k) kid.
-Definition find_key (trusted stored : list akey) (kid : bytes) : option akey :=
-  match find (has_id kid) trusted with
-  | Some k => Some k
-  | None => find (has_id kid) stored
+Fixpoint find_key (layers : list (list akey)) (kid : bytes) : option akey :=
+  match layers with
+  | [] => None
+  | l :: rest => match find (has_id kid) l with Some k => Some k | None => find_key rest kid end
   end.
 
 Section Check.
@@ -75,9 +77,9 @@ Section Check.
 
   (* Database.Check with DefaultCheckers: CheckSigningKeyIsNotExpired, CheckSignature (authority, constraints, verify),
      CheckTimestampVsSigningKeyValidity. true = accepted. *)
-  Definition check (trusted stored : list akey) (earliest : Z) (latest : option Z) (a : assertion) : bool :=
+  Definition check (layers : list (list akey)) (earliest : Z) (latest : option Z) (a : assertion) : bool :=
     a_supported a &&
-    match find_key trusted stored (a_sign_key a) with
+    match find_key layers (a_sign_key a) with
     | None => false
     | Some k =>
         beq (k_account k) (a_authority a)
@@ -88,8 +90,8 @@ Section Check.
     end.
 
   (* earliestTime zero: both bounds are the current time *)
-  Definition check_now (trusted stored : list akey) (now : Z) (a : assertion) : bool :=
-    check trusted stored now (Some now) a.
+  Definition check_now (layers : list (list akey)) (now : Z) (a : assertion) : bool :=
+    check layers now (Some now) a.
 End Check.
 
 (* ------------------------------------------------------------------ correspondence / monitor interface *)
@@ -106,26 +108,27 @@ Definition clock_latest (c : clock) : option Z := match c with CNow t => Some t 
    signed = key id, content and signature core of the assertion as the signer produced it; sig0 = its decoded signature;
    accepted = Database.Check returned nil; added = Database.Add returned nil and Find then returns the same content *)
 Inductive case :=
-| CCheck (trusted stored : list akey) (c : clock) (decoded : bool) (a : assertion) (signed : bytes * bytes * bytes)
+| CCheck (layers : list (list akey)) (c : clock) (decoded : bool) (a : assertion) (signed : bytes * bytes * bytes)
          (sig0 : bytes) (accepted added : bool).
 
 Definition model_accept (x : case) : bool :=
   match x with
-  | CCheck tr st c decoded a signed _ _ _ =>
-      decoded && check (ideal_verify signed) tr st (clock_earliest c) (clock_latest c) a
+  | CCheck layers c decoded a signed _ _ _ =>
+      decoded && check (ideal_verify signed) layers (clock_earliest c) (clock_latest c) a
   end.
 
 Definition mismatch (x : case) : bool :=
   match x with
-  | CCheck _ _ _ _ _ _ _ accepted added => negb (Bool.eqb (model_accept x) accepted) || negb (Bool.eqb accepted added)
+  | CCheck _ _ _ _ _ _ accepted added => negb (Bool.eqb (model_accept x) accepted) || negb (Bool.eqb accepted added)
   end.
 
 (* The property on the observed behaviour, written without `check`/`find_key`: an accepted assertion decodes, is
-   byte-for-byte (content and decoded signature) what the signer signed, and SOME known key with the sign-key id belongs
-   to the declared authority, is valid for the clock (and at the timestamp) and its constraints admit the assertion.
-   Nothing is added that was not accepted. *)
+   byte-for-byte (content and decoded signature) what the signer signed, and THE key the database has to use for the
+   sign-key id - the first one in layer order (all layers flattened in order; a later layer may still hold an older,
+   still valid revision of the same key, which must not be used) - belongs to the declared authority, is valid for
+   the clock (and at the timestamp) and its constraints admit the assertion. Nothing is added that was not accepted. *)
 Definition key_admits (c : clock) (a : assertion) (k : akey) : bool :=
-  beq (k_id k) (a_sign_key a) && beq (k_account k) (a_authority a)
+  beq (k_account k) (a_authority a)
   && match c with
      | CNow t => valid_at k t
      | CEarliest t => match k_until k with Some u => t <? u | None => true end
@@ -133,10 +136,13 @@ Definition key_admits (c : clock) (a : assertion) (k : akey) : bool :=
   && match a_timestamp a with Some t => valid_at k t | None => true end
   && match k_constraints k with [] => true | cs => existsb (constraint_ok (a_headers a)) cs end.
 
+Definition deciding_key (layers : list (list akey)) (kid : bytes) : option akey :=
+  find (fun k => beq kid (k_id k)) (List.concat layers).
+
 Definition monitor_fail (x : case) : bool :=
   match x with
-  | CCheck tr st c decoded a (k0, c0, _) s0 accepted added =>
+  | CCheck layers c decoded a (k0, c0, _) s0 accepted added =>
       (accepted && negb (decoded && a_supported a && beq (a_sign_key a) k0 && beq (a_content a) c0 && beq (a_sig a) s0
-                         && existsb (key_admits c a) (tr ++ st)))
+                         && match deciding_key layers (a_sign_key a) with Some k => key_admits c a k | None => false end))
       || (added && negb accepted)
   end.
